@@ -11,7 +11,7 @@ use std::path::{Path, PathBuf};
 use std::process::{Command, ExitStatus, Stdio};
 use std::time::{Duration, Instant};
 
-pub const SUPERVISED: &[&str] = &["C04", "C08", "C12", "C13", "C15", "C19"];
+pub const SUPERVISED: &[&str] = &["C04", "C08", "C12", "C13", "C15", "C16", "C19"];
 
 /// (target, build mode) pairs: `asan` = AddressSanitizer + debug assertions,
 /// `asanrel` = AddressSanitizer without debug assertions (as shipped).
@@ -298,7 +298,28 @@ pub fn miri_targeted_stage(ctx: &Ctx, build_dir: &Path) -> (u64, Option<Value>, 
 /// interpret the i686 build.  Limb-width dependent constants + generated boundary inputs judged by the exact
 /// oracle in the default, compact and alloc configurations.  Quick: constants + 4 inputs; thorough: 150.
 /// Returns (violations, report, harness_error).
+/// The 32-bit targets the interpreted stages run on: little-endian (all of the work) and big-endian (half of it).
+pub const TARGETS_32: [(&str, u64); 2] = [("i686-unknown-linux-gnu", 1), ("powerpc-unknown-linux-gnu", 2)];
+
 pub fn l32_stage(ctx: &Ctx, build_dir: &Path) -> (u64, Option<Value>, Option<String>) {
+    let mut reports = Vec::new();
+    for (target, div) in TARGETS_32 {
+        let (v, r, e) = l32_stage_on(ctx, build_dir, target, div);
+        if let Some(r) = r {
+            reports.push(r);
+        }
+        if v > 0 || e.is_some() {
+            return (v, Some(json!(reports)), e);
+        }
+    }
+    if reports.is_empty() {
+        (0, None, None)
+    } else {
+        (0, Some(json!(reports)), None)
+    }
+}
+
+fn l32_stage_on(ctx: &Ctx, build_dir: &Path, target: &str, div: u64) -> (u64, Option<Value>, Option<String>) {
     if !matches!(ctx.id.as_str(), "C12" | "C13" | "C14" | "C18") {
         return (0, None, None);
     }
@@ -317,33 +338,34 @@ pub fn l32_stage(ctx: &Ctx, build_dir: &Path) -> (u64, Option<Value>, Option<Str
         (_, "C13") => std::env::var("VERIF_L32_CASES").ok().and_then(|s| s.parse().ok()).unwrap_or(40),
         _ => std::env::var("VERIF_L32_CASES").ok().and_then(|s| s.parse().ok()).unwrap_or(150),
     };
+    let count = (count / div).max(1);
     let start = Instant::now();
     let per_part = if sub == "L32" { 12 } else if sub == "U32" { u64::MAX } else if sub == "C13" { 1 } else { 2 };
-    let out = match miri_parallel(&harness, build_dir, Some("i686-unknown-linux-gnu"), "-Zmiri-tree-borrows -Zmiri-disable-isolation -Zmiri-no-extra-rounding-error", sub, count, ctx.seed, per_part) {
+    let out = match miri_parallel(&harness, build_dir, Some(target), "-Zmiri-tree-borrows -Zmiri-disable-isolation -Zmiri-no-extra-rounding-error", sub, count, ctx.seed, per_part) {
         Ok(o) => o,
         Err(e) => return (0, None, Some(e)),
     };
     let (stdout, stderr) = (out.stdout.clone(), out.stderr.clone());
     let cases = stdout.lines().filter(|l| l.starts_with("MIRI-CASE")).count();
-    let report = json!({"engine": "Miri, --target i686-unknown-linux-gnu (32-bit limbs), tree borrows", "generated_inputs": count, "steps_executed": cases,
+    let report = json!({"engine": format!("Miri, --target {target} (32-bit limbs), tree borrows"), "generated_inputs": count, "steps_executed": cases,
                         "wall_s": start.elapsed().as_secs_f64(), "ok": out.success,
                         "samples": stdout.lines().filter(|l| l.starts_with("MIRI-CASE")).take(6).collect::<Vec<_>>() });
     if out.success && stdout.contains(&format!("MIRI-OK {sub}")) && stdout.contains("pointer width = 32") {
         return (0, Some(report), None);
     }
     if let Some(v) = stdout.lines().find(|l| l.starts_with("MIRI-VIOLATION")) {
-        let path = ctx.verif_dir.join("replays").join(format!("{}-l32-{}.json", ctx.id, ctx.seed));
+        let path = ctx.verif_dir.join("replays").join(format!("{}-l32-{}-{}.json", ctx.id, target.split('-').next().unwrap_or("t"), ctx.seed));
         std::fs::create_dir_all(ctx.verif_dir.join("replays")).ok();
-        let doc = json!({"property": ctx.id, "message": v, "case": {"kind": "l32", "seed": ctx.seed, "count": count, "line": v}});
+        let doc = json!({"property": ctx.id, "message": v, "case": {"kind": "l32", "seed": ctx.seed, "count": count, "line": v, "target": target}});
         let _ = std::fs::write(&path, serde_json::to_string_pretty(&doc).unwrap());
         eprintln!("32-bit-limb stage: {v}");
         println!("VIOLATION property={} replay={}", ctx.id, path.display());
         return (1, Some(report), None);
     }
     if stderr.contains("Undefined Behavior") {
-        let path = ctx.verif_dir.join("replays").join(format!("{}-l32-{}.json", ctx.id, ctx.seed));
+        let path = ctx.verif_dir.join("replays").join(format!("{}-l32-{}-{}.json", ctx.id, target.split('-').next().unwrap_or("t"), ctx.seed));
         let detail: String = stderr.lines().filter(|l| l.contains("Undefined Behavior") || l.contains("-->")).take(6).collect::<Vec<_>>().join(" | ");
-        let doc = json!({"property": ctx.id, "message": format!("Miri (i686) reported undefined behaviour: {detail}"), "case": {"kind": "l32", "seed": ctx.seed, "count": count}});
+        let doc = json!({"property": ctx.id, "message": format!("Miri (i686) reported undefined behaviour: {detail}"), "case": {"kind": "l32", "seed": ctx.seed, "count": count, "target": target}});
         let _ = std::fs::write(&path, serde_json::to_string_pretty(&doc).unwrap());
         println!("VIOLATION property={} replay={}", ctx.id, path.display());
         return (1, Some(report), None);
@@ -356,6 +378,24 @@ pub fn l32_stage(ctx: &Ctx, build_dir: &Path) -> (u64, Option<Value>, Option<Str
 /// big-integer path are generated natively together with their oracle verdict (`mlv l32-inputs`) and parsed by
 /// Miri with --target i686-unknown-linux-gnu in four configurations.
 pub fn l32_file_stage(ctx: &Ctx, build_dir: &Path) -> (u64, Option<Value>, Option<String>) {
+    let mut reports = Vec::new();
+    for (target, div) in TARGETS_32 {
+        let (v, r, e) = l32_file_stage_on(ctx, build_dir, target, div);
+        if let Some(r) = r {
+            reports.push(r);
+        }
+        if v > 0 || e.is_some() {
+            return (v, Some(json!(reports)), e);
+        }
+    }
+    if reports.is_empty() {
+        (0, None, None)
+    } else {
+        (0, Some(json!(reports)), None)
+    }
+}
+
+fn l32_file_stage_on(ctx: &Ctx, build_dir: &Path, target: &str, div: u64) -> (u64, Option<Value>, Option<String>) {
     let which = match ctx.id.as_str() {
         "C01" => "f64",
         "C02" => "f32",
@@ -366,7 +406,9 @@ pub fn l32_file_stage(ctx: &Ctx, build_dir: &Path) -> (u64, Option<Value>, Optio
         return (0, Some(json!({"skipped": "MLV_SKIP_L32 set"})), None);
     }
     let count: u64 = if ctx.tier.name() == "quick" { 48 } else { std::env::var("VERIF_L32_CASES").ok().and_then(|s| s.parse().ok()).unwrap_or(1200) };
-    let file = build_dir.join(format!("l32-{}-{}.txt", ctx.id, ctx.seed));
+    let count = (count / div).max(1);
+    let tshort = target.split('-').next().unwrap_or("t");
+    let file = build_dir.join(format!("l32-{}-{}-{}.txt", ctx.id, tshort, ctx.seed));
     let me = std::env::current_exe().expect("current_exe");
     let st = Command::new(&me).args(["l32-inputs", &ctx.seed.to_string(), &count.to_string(), which, file.to_str().unwrap()]).status();
     if !matches!(st, Ok(s) if s.success()) {
@@ -380,14 +422,14 @@ pub fn l32_file_stage(ctx: &Ctx, build_dir: &Path) -> (u64, Option<Value>, Optio
     let mut children = Vec::new();
     for p in 0..parts {
         let chunk: Vec<&String> = lines.iter().enumerate().filter(|(i, _)| i % parts == p).map(|(_, l)| l).collect();
-        let cfile = build_dir.join(format!("l32-{}-{}-part{}.txt", ctx.id, ctx.seed, p));
+        let cfile = build_dir.join(format!("l32-{}-{}-{}-part{}.txt", ctx.id, tshort, ctx.seed, p));
         let text: String = chunk.iter().map(|l| format!("{l}\n")).collect();
         if std::fs::write(&cfile, text).is_err() {
             return (0, None, Some("cannot write a 32-bit-limb stage input chunk".into()));
         }
         let child = Command::new("cargo")
             .current_dir(&harness)
-            .args(["+nightly", "miri", "run", "-q", "--target", "i686-unknown-linux-gnu", "-p", "mlv", "--bin", "mlv-miri", "--", "L32F", cfile.to_str().unwrap()])
+            .args(["+nightly", "miri", "run", "-q", "--target", target, "-p", "mlv", "--bin", "mlv-miri", "--", "L32F", cfile.to_str().unwrap()])
             .env("MIRIFLAGS", "-Zmiri-tree-borrows -Zmiri-disable-isolation -Zmiri-no-extra-rounding-error")
             .env("CARGO_TARGET_DIR", build_dir.join("miri"))
             .env("CARGO_NET_OFFLINE", "true")
@@ -427,7 +469,7 @@ pub fn l32_file_stage(ctx: &Ctx, build_dir: &Path) -> (u64, Option<Value>, Optio
         }
     }
     samples.truncate(6);
-    let report = json!({"engine": "Miri, --target i686-unknown-linux-gnu (32-bit limbs), tree borrows; inputs and expected bits generated natively",
+    let report = json!({"engine": format!("Miri, --target {target} (32-bit limbs), tree borrows; inputs and expected bits generated natively"),
                         "inputs": count, "inputs_parsed": cases, "concurrent_interpreters": parts, "configurations": ["default", "compact", "alloc", "no_std+compact"],
                         "wall_s": start.elapsed().as_secs_f64(), "ok": all_ok, "samples": samples});
     if all_ok {
@@ -443,9 +485,9 @@ pub fn l32_file_stage(ctx: &Ctx, build_dir: &Path) -> (u64, Option<Value>, Optio
         };
         eprintln!("32-bit-limb stage: {message}");
         let tag = crate::gen::mix(line.bytes().fold(0u64, |h, b| h.wrapping_mul(131).wrapping_add(b as u64)));
-        let path = ctx.verif_dir.join("replays").join(format!("{}-l32f-{:016x}.json", ctx.id, tag));
+        let path = ctx.verif_dir.join("replays").join(format!("{}-l32f-{}-{:016x}.json", ctx.id, tshort, tag));
         std::fs::create_dir_all(ctx.verif_dir.join("replays")).ok();
-        let doc = json!({"property": ctx.id, "message": message, "case": {"kind": "l32f", "line": line}});
+        let doc = json!({"property": ctx.id, "message": message, "case": {"kind": "l32f", "line": line, "target": target}});
         let _ = std::fs::write(&path, serde_json::to_string_pretty(&doc).unwrap());
         println!("VIOLATION property={} replay={}", ctx.id, path.display());
         return (1, Some(report), None);
